@@ -2057,15 +2057,19 @@ class MatrixBase:
 
     def __matmul__(self, other: 'MatrixBase | AngleBase') -> Self:
         if isinstance(other, MatrixBase):
-            mat = self.copy()
-            mat._mat_mul(other)
-            return mat
+            rot = other
         elif isinstance(other, AngleBase):
-            mat = self.copy()
-            mat._mat_mul(Py_Matrix.from_angle(other))
-            return mat
+            rot = Py_Matrix.from_angle(other)
         else:
             return NotImplemented
+        # Don't use copy(), frozen matrices return themselves which must not be mutated.
+        mat = type(self)._from_raw(
+            self._aa, self._ab, self._ac,
+            self._ba, self._bb, self._bc,
+            self._ca, self._cb, self._cc,
+        )
+        mat._mat_mul(rot)
+        return mat
 
     @overload
     def __rmatmul__(self, other: FrozenVec) -> FrozenVec: ...
@@ -2095,7 +2099,12 @@ class MatrixBase:
             cls = type(other)
             return mat._to_angle(cls.__new__(cls))
         elif isinstance(other, MatrixBase):
-            mat = other.copy()
+            # Don't use copy(), frozen matrices return themselves which must not be mutated.
+            mat = type(other)._from_raw(
+                other._aa, other._ab, other._ac,
+                other._ba, other._bb, other._bc,
+                other._ca, other._cb, other._cc,
+            )
             mat._mat_mul(self)
             return mat
         else:
